@@ -304,6 +304,47 @@ fn clone_at<S: Sampler>(build: impl Fn() -> S, beta: f64, k: usize, j: usize) ->
     Ok(orig.nontrivial())
 }
 
+
+/// `dst.clone_from(&src)`: afterwards dst must be what `src.clone()` is — whatever dst was before (larger / smaller /
+/// equal cutoff, more / fewer ops, other options, even another model) — and continue exactly like it; src untouched.
+fn clone_from_case<S: Sampler>(build_src: impl Fn() -> S, build_dst: impl Fn() -> S, beta: f64, ks: usize, kd: usize, j: usize) -> Result<bool, String> {
+    let mut src = build_src();
+    for _ in 0..ks {
+        src.step(beta);
+    }
+    let mut dst = build_dst();
+    for _ in 0..kd {
+        dst.step(beta);
+    }
+    let before = src.snapshot();
+    dst.clone_from(&src);
+    let mut reference = src.clone();
+    if src.snapshot() != before {
+        return Err("clone_from changed its source".into());
+    }
+    if dst.snapshot() != reference.snapshot() {
+        return Err(format!("after dst.clone_from(&src) (src stepped {}, dst stepped {} before) dst differs from src.clone()", ks, kd));
+    }
+    for i in 0..j {
+        let (a, b) = (dst.step(beta), reference.step(beta));
+        if a != b {
+            return Err(format!("clone_from copy (src stepped {}, dst stepped {} before) leaves src.clone() at step +{}: {} vs {}", ks, kd, i + 1, a, b));
+        }
+    }
+    if dst.snapshot() != reference.snapshot() {
+        return Err("snapshots differ after the continuation".into());
+    }
+    let mut o = src;
+    for i in 0..j {
+        o.step(beta);
+        let _ = i;
+    }
+    if o.snapshot() != reference.snapshot() {
+        return Err("the source's own continuation differs from its clone's".into());
+    }
+    Ok(reference.nontrivial())
+}
+
 // ------------------------------------------------------------------------------------------------
 // tempering containers
 // ------------------------------------------------------------------------------------------------
@@ -488,6 +529,53 @@ fn main() {
             emit(nt, &format!("clone-classical {} k={} j={}", cfg.show(), k, j), out(&v), Some(v));
         }
     }
+    // clone_from: destination with larger / smaller / equal history, other options, other model
+    let ncf = if a.thorough { 24 } else { 8 };
+    for i in 0..ncf {
+        let mut cfg = gen_cfg(&mut gen, 8 + i, a.thorough);
+        cfg.cutoff = 1 + (i % 3); // small initial cutoff: the string outgrows it while stepping
+        cfg.beta = 4.0;
+        let other = gen_cfg(&mut gen, i, a.thorough);
+        let loops = i % 2 == 0;
+        let beta = cfg.beta;
+        let verdict = |r: Result<Result<bool, String>, String>| -> (bool, Result<(), String>) {
+            match r {
+                Ok(Ok(nt)) => (nt, Ok(())),
+                Ok(Err(e)) => (true, Err(e)),
+                Err(p) => (true, Err(format!("panic: {}", p))),
+            }
+        };
+        let out = |v: &Result<(), String>| if v.is_ok() { "same" } else { "diff" };
+        // (src steps, dst steps): dst further along (larger cutoff, more ops), behind, equal, fresh
+        for (ks, kd) in [(3usize, 25usize), (25, 3), (10, 10), (12, 0), (0, 12)] {
+            for variant in 0..3usize {
+                // 0: same model other seed; 1: options toggled (rvb / heat bath); 2: a different model
+                let mut dcfg = match variant {
+                    0 => cfg.clone(),
+                    1 => {
+                        let mut d = cfg.clone();
+                        d.rvb = !d.rvb;
+                        d.heatbath = !d.heatbath;
+                        d
+                    }
+                    _ => other.clone(),
+                };
+                dcfg.seed = dcfg.seed.wrapping_add(77);
+                let (c1, d1) = (cfg.clone(), dcfg.clone());
+                let (nt, v) = verdict(catch(|| clone_from_case(|| c1.build(), || d1.build(), beta, ks, kd, 8)));
+                emit(nt, &format!("clonefrom-ising {} ks={} kd={} dst={} dstcfg={}", cfg.show(), ks, kd, variant, dcfg.show()), out(&v), Some(v));
+                let (c1, d1) = (cfg.clone(), dcfg.clone());
+                let (nt, v) = verdict(catch(|| clone_from_case(|| c1.build_generic(loops), || d1.build_generic(!loops || variant == 0), beta, ks, kd, 8)));
+                emit(nt, &format!("clonefrom-generic loops={} {} ks={} kd={} dst={} dstcfg={}", loops as u8, cfg.show(), ks, kd, variant, dcfg.show()), out(&v), Some(v));
+                if variant == 0 {
+                    let (c1, d1) = (cfg.clone(), dcfg.clone());
+                    let (nt, v) = verdict(catch(|| clone_from_case(|| Classical(c1.build_classical()), || Classical(d1.build_classical()), beta, ks, kd, 8)));
+                    emit(nt, &format!("clonefrom-classical {} ks={} kd={}", cfg.show(), ks, kd), out(&v), Some(v));
+                }
+            }
+        }
+    }
+    stat("clonefrom.configs", ncf);
     stat("samplers.configs", ncfg);
 
     // ---------------- tempering containers: twins, clones, serial vs rayon pools ----------------
@@ -579,6 +667,73 @@ fn main() {
                     if v.is_ok() { "same" } else { "diff" },
                     Some(v),
                 );
+            }
+        }
+    }
+    // container clone_from (TemperingContainer derives Clone; clone_from = the default through clone)
+    for i in 0..(if a.thorough { 8 } else { 3 }) {
+        let cfg = gen_tcfg(&mut gen, i, a.thorough, None);
+        let mut dcfg = gen_tcfg(&mut gen, i + 1, a.thorough, None);
+        dcfg.base = cfg.base.clone();
+        let prog = gen_prog(&mut gen, 4);
+        let v = catch(|| {
+            let mut src = cfg.build();
+            let _ = program(&mut src, false, &prog[..2]);
+            let mut dst = dcfg.build();
+            let _ = program(&mut dst, false, &prog);
+            let before = obs_tc(&src);
+            dst.clone_from(&src);
+            let mut reference = src.clone();
+            if obs_tc(&src) != before {
+                return Err("container clone_from changed its source".to_string());
+            }
+            if obs_tc(&dst) != obs_tc(&reference) {
+                return Err("container after clone_from differs from src.clone()".to_string());
+            }
+            let a = program(&mut dst, false, &prog[2..]);
+            let b = program(&mut reference, false, &prog[2..]);
+            match first_diff(&a, &b) {
+                None => Ok(()),
+                Some(d) => Err(format!("container clone_from copy vs src.clone(): {}", d)),
+            }
+        })
+        .unwrap_or_else(|p| Err(format!("panic: {}", p)));
+        emit(true, &format!("clonefrom-temper {} prog={}", cfg.show(), show_prog(&prog)), if v.is_ok() { "same" } else { "diff" }, Some(v));
+    }
+
+    // long ladders: 70 and 130 replicas of a tiny system, several tempering steps, serial vs rayon
+    for (li, nrep) in [70usize, 130, 67].iter().enumerate() {
+        let mut cfg = gen_tcfg(&mut gen, 8 + li, false, Some(*nrep));
+        cfg.base.edges = vec![((0, 1), 1.0), ((1, 2), -0.5)];
+        cfg.base.rvb = false;
+        cfg.base.heatbath = li == 1;
+        cfg.base.longitudinal = 0.0;
+        // a smooth ladder so that neighbouring pairs all over the ladder do exchange
+        cfg.replicas = (0..*nrep).map(|i| (0.5 + (i as f64) / 16.0, 1.0, 1.0)).collect();
+        let prog: Vec<(u8, usize, usize, usize)> = vec![(2, 2, 0, 0), (1, 0, 0, 0), (1, 0, 0, 0), (0, 4, 1, 2), (1, 0, 0, 0), (0, 3, 1, 1)];
+        let ps = show_prog(&prog);
+        let reference = catch(|| {
+            let mut tc = cfg.build();
+            let r = program(&mut tc, false, &prog);
+            (r, tc.get_total_swaps())
+        });
+        match reference {
+            Err(p) => emit(true, &format!("ladder replicas={} prog={}", nrep, ps), "diff", Some(Err(format!("panic: {}", p)))),
+            Ok((refout, swaps)) => {
+                stat(&format!("ladder.{}.total_swaps", nrep), swaps);
+                for threads in [1usize, 4, 9] {
+                    let v = catch(|| {
+                        let pool = rayon::ThreadPoolBuilder::new().num_threads(threads).build().unwrap();
+                        let mut tc = cfg.build();
+                        let o = pool.install(|| program(&mut tc, true, &prog));
+                        match first_diff(&refout, &o) {
+                            None => Ok(()),
+                            Some(d) => Err(d),
+                        }
+                    })
+                    .unwrap_or_else(|p| Err(format!("panic: {}", p)));
+                    emit(true, &format!("ladder replicas={} threads={} cseed={} prog={}", nrep, threads, cfg.seed, ps), if v.is_ok() { "same" } else { "diff" }, Some(v));
+                }
             }
         }
     }
